@@ -126,6 +126,30 @@ func c15Body(c *run.Ctx) {
 		Mem:          sim.MemOpts{NewPlayer: 3, Rebuy: 3, Leave: 1, KeepSitting: 10, MaxNewID: 12, TopupAnyone: true},
 		RearmOnLeave: true,
 	}
+	// a late "more time" request arriving while the hand is being settled (issued from inside
+	// the settled notification): whatever it does, nothing may be left between hands
+	lateExtID, lateExtDur := "", 0
+	o.Prepare = func(s *sim.Sim) {
+		s.InCallback = func(sm *sim.Sim, name string, t *pokertable.Table) {
+			if lateExtID != "" && name == pokertable.TableStateEvent_GameSettled {
+				id := lateExtID
+				lateExtID = ""
+				sm.TE.PlayerExtendActionDeadline(id, lateExtDur)
+			}
+		}
+	}
+	o.BeforeHand = func(s *sim.Sim, n int) bool {
+		lateExtID = ""
+		if choose.Chance(c.Ch, "ext.late", 15) {
+			if live := sim.LivePlayers(s.Now()); len(live) > 0 {
+				lateExtID = live[c.Ch.Int("ext.late.who", 0, len(live)-1)]
+				lateExtDur = c.Ch.Int("ext.late.d", 1, 60)
+				s.Label("extension_during_settlement")
+				nontrivial = true
+			}
+		}
+		return true
+	}
 	o.AfterHand = func(s *sim.Sim, h *sim.Hand) {
 		if h.After != nil && h.After.State.CurrentActionEndAt != 0 {
 			c.Failf("C15.not-cleared-between-hands", "after hand %d the deadline is %d", h.N, h.After.State.CurrentActionEndAt)
